@@ -301,6 +301,11 @@ def main(tier):
         run.add(SpecTask(sp))
     for ch in chunks(encodable_defs(), 48):
         run.add(EncoderRoundTripTask(ch))
+    # "a payload of the definition's length ... that equals the original on every defined bit" as it leaves the library: the frame
+    # formats carry exactly the payload bytes with their true length (the packet layout contracts of C06)
+    from contracts.wire import EncoderTask
+    for fmt in ('ebyte', 'usb', 'yd', 'actisense'):
+        run.add(EncoderTask(fmt, prop='C02'))
     from contracts.helpers_c import encode_helper_tasks
     for t in encode_helper_tasks('C02'):
         run.add(t)
